@@ -55,7 +55,7 @@ def main():
                                    cwd=dst, capture_output=True, text=True)
                 tests = r.stdout.strip().splitlines()[-1] if r.stdout.strip() else "?"
             for prop in ([args.prop] if args.prop else m["props"]):
-                env = dict(os.environ, VERIF_REPO=dst, VERIF_SEED=args.seed)
+                env = dict(os.environ, VERIF_REPO=dst, VERIF_SEED=args.seed, VERIF_EVIDENCE_DIR=os.path.join(tmp, "ev"), VERIF_REPLAY_DIR=os.path.join(tmp, "rp"))
                 t0 = time.time()
                 r = subprocess.run([os.path.join(HERE, "check"), prop, "--tier", args.tier], env=env,
                                    capture_output=True, text=True)
@@ -71,8 +71,6 @@ def main():
         if rc != 1:
             bad += 1
         print(f"{flag:7} {prop:4} {mid:40} rc={rc} {note}")
-    # the check writes evidence into /verif/evidence; restore it so mutant runs never become evidence
-    subprocess.run(["git", "-C", HERE, "checkout", "--", "evidence"], capture_output=True)
     return 1 if bad else 0
 
 
